@@ -34,7 +34,7 @@ AGREE_THEOREMS = {
 
 # source-agreement leaves (DESIGN 11.7): interpreting the dumped Python source = the model, for all inputs
 PYAGREE = {
-    'C01': ['LayerWhole', 'LayerSend', 'LayerInitWhole'],
+    'C01': ['LayerWhole', 'LayerSend', 'LayerInitWhole', 'LayerIter'],
     'C11': ['LayerWhole'],
     'C18': ['LayerRx', 'LayerTxWhole'],
     'C02': ['MiscFd', 'MiscFrame', 'LayerSend'],
@@ -48,7 +48,7 @@ PYAGREE = {
     'C12': ['LayerTxHelpers', 'LayerQueues', 'Exec2Bridge', 'LayerSend', 'LayerInit'],
     'C13': ['PyCan', 'Threaded', 'ThreadedWorker', 'SmallFns'],
     'C14': ['LayerQueues', 'Exec2Bridge', 'Threaded', 'ThreadedWorker', 'LayerInit'],
-    'C10': ['LayerProcess', 'LayerWhole'],
+    'C10': ['LayerProcess', 'LayerWhole', 'LayerIter'],
     'C15': ['LayerTxHelpers', 'LimiterLoop', 'SmallFns'],
     'C16': ['AddressValidate', 'AddressInit', 'ParamsValidate'],
     'C17': ['LayerTxHelpers', 'LayerTx', 'GenConsume', 'LayerInit'],
@@ -56,7 +56,7 @@ PYAGREE = {
     'C20': ['AddressFns', 'SockOpts', 'SockGuards'],
 }
 # leaves that are finished and committed
-PYAGREE_READY = {'ParamsValidate', 'LayerInit', 'LayerInitWhole', 'SmallFns', 'LimiterLoop', 'GenConsume', 'ThreadedWorker', 'Threaded', 'PyCan', 'LayerWhole', 'SockGuards', 'LayerTxWhole', 'MiscFrame', 'LayerProcess', 'LayerTx', 'LayerRx', 'LayerSend', 'LayerTxHelpers', 'LayerQueues', 'Exec2Bridge', 'SockOpts', 'AddressFns', 'AddressValidate', 'AddressInit', 'Pdu', 'MiscFd', 'MiscFc', 'MiscTimer'}
+PYAGREE_READY = {'LayerIter', 'ParamsValidate', 'LayerInit', 'LayerInitWhole', 'SmallFns', 'LimiterLoop', 'GenConsume', 'ThreadedWorker', 'Threaded', 'PyCan', 'LayerWhole', 'SockGuards', 'LayerTxWhole', 'MiscFrame', 'LayerProcess', 'LayerTx', 'LayerRx', 'LayerSend', 'LayerTxHelpers', 'LayerQueues', 'Exec2Bridge', 'SockOpts', 'AddressFns', 'AddressValidate', 'AddressInit', 'Pdu', 'MiscFd', 'MiscFc', 'MiscTimer'}
 
 
 def pyagree_theorems(mod):
